@@ -511,6 +511,50 @@ theorem smoothing_energy_lt {g : Grid K} {m : VM K} (h : PhysRS g m) (s e estar 
   obtain ⟨B, hB, hqB⟩ := kernelBlocks_cover kernel g.nx g.ny g.nz nu hk3 hnu hx hy hz q hq
   exact ⟨B, List.mem_flatMap.2 ⟨kernel, hkm, hB⟩, hqB⟩
 
+/-! ## every level of the hierarchy -/
+
+/-- the strictly dissipative class is closed under the coarsening of `solver.restriction` -/
+theorem PhysRS.coarse {g : Grid K} {m : VM K} (h : PhysRS g m) (csc : ℕ) :
+    PhysRS (coarseGrid csc g) (coarseVM csc g m) := by
+  have hv : coarseVM csc g m =
+      { etaX := restrictParam csc g m.etaX, etaY := restrictParam csc g m.etaY
+        etaZ := restrictParam csc g m.etaZ, zeta := restrictParam csc g m.zeta } := by
+    unfold coarseVM; rw [matVM_eq]
+  rw [hv]
+  refine ⟨?_, ?_, ?_, ?_⟩
+  · exact restrictParam_closed_allK (fun z => 0 ≤ z) (fun x y hx hy => add_nonneg hx hy) csc g _ h.zeta
+  · exact restrictParam_closedK (fun z => z < 0) (fun x y hx hy => add_neg hx hy) csc g _ h.etaX
+  · exact restrictParam_closedK (fun z => z < 0) (fun x y hx hy => add_neg hx hy) csc g _ h.etaY
+  · exact restrictParam_closedK (fun z => z < 0) (fun x y hx hy => add_neg hx hy) csc g _ h.etaZ
+
+theorem PhysRS.reach {g0 : Grid K} {m0 : VM K} (h : PhysRS g0 m0) {g : Grid K} {m : VM K}
+    (hr : Reach g0 m0 g m) : PhysRS g m := by
+  induction hr with
+  | base => exact h
+  | step csc _ ih => exact ih.coarse csc
+
+/-- **on every level the recursion can reach, a smoothing call of the cycle** (already adapted
+code `clr` with at least one kernel, at least one sweep, solved blocks, at least two cells per
+direction) **strictly reduces the energy norm of that level's non-zero error** -/
+theorem smoothingC_energy_lt_reach {g0 : Grid K} {m0 : VM K} (h : PhysRS g0 m0)
+    {g : Grid K} {m : VM K} (hr : Reach g0 m0 g m) (s e estar : EF K) (nu clr : ℕ)
+    (hk : ∃ kernel ∈ kernelsOf clr, kernel ≤ 3) (hnu : 1 ≤ nu)
+    (hx : 2 ≤ g.nx) (hy : 2 ≤ g.ny) (hz : 2 ≤ g.nz) (he : PEC g e) (hs : PEC g estar)
+    (hsol : ∀ q, Interior g.nx g.ny g.nz q → amatAt g m estar q = s.get q)
+    (hok : (smoothingC g m s e nu clr).2 = true)
+    (hne : ∃ q, Interior g.nx g.ny g.nz q ∧ e.get q ≠ estar.get q) :
+    energy g m ((smoothingC g m s e nu clr).1.sub estar) < energy g m (e.sub estar) := by
+  unfold smoothingC at hok ⊢
+  refine relaxAll_energy_lt g m (h.reach hr) s estar hs hsol _ (fun B hB => ?_) ?_
+    (e, true) he hok hne
+  · simp only [List.mem_flatMap] at hB
+    obtain ⟨kernel, _, hB⟩ := hB
+    exact kernelBlocks_interior _ _ _ _ _ B hB
+  · intro q hq
+    obtain ⟨kernel, hkm, hk3⟩ := hk
+    obtain ⟨B, hB, hqB⟩ := kernelBlocks_cover kernel g.nx g.ny g.nz nu hk3 hnu hx hy hz q hq
+    exact ⟨B, List.mem_flatMap.2 ⟨kernel, hkm, hB⟩, hqB⟩
+
 /-- non-vacuity: a strictly dissipative Laplace-domain model on a 2×2×2 grid over ℚ -/
 example : PhysRS (K := ℚ) ⟨2, 2, 2, fun _ => 1, fun _ => 1, fun _ => 1⟩
     ⟨fun _ _ _ => -1, fun _ _ _ => -2, fun _ _ _ => -3, fun _ _ _ => 1⟩ := by
